@@ -1,0 +1,10 @@
+//go:build verif
+
+// Contracts for package repl, read by /verif's VC generator (govc). Comment-only.
+package repl
+
+// the REPL keeps reading lines exactly for the reader's distinguished "ran out of input" errors
+//@ spec isEofMsg(m string) bool = m == "expected ')', got EOF" || m == "expected ']', got EOF" || m == "expected '}', got EOF" || m == "expected '»', got EOF" || m == "expected '¬', got EOF"
+//@ func multiLine(err) (r)
+//@   panics never
+//@   ensures r == (err != nil && is(err, lisperror.LispError) && is(thrownOf(err), `error`) && isEofMsg(errorString(thrownOf(err)))) @C16
